@@ -568,7 +568,16 @@ var AncestorLoop = errors.New("ancestor loop detected")
 
 // DoAncestors calls the given function on this location and all of its ancestors in depth-first order.
 func (loc *Location) DoAncestors(ctx *Context, fn func(*Location) error) error {
-	return loc.doAncestors(ctx, fn, make(map[string]bool), make(map[string]bool))
+	err := loc.doAncestors(ctx, fn, make(map[string]bool), make(map[string]bool))
+	// The functions that walk the ancestors point the context at
+	// each location they visit, this one last.  When the walk
+	// stops early (an ancestor that fails), the context is left at
+	// that ancestor, and whatever the request does next (a script
+	// that goes on after catching the error) happens there.
+	if ctx != nil {
+		ctx.SetLoc(loc)
+	}
+	return err
 }
 
 // doAncestors does the work for DoAncestors.
